@@ -68,7 +68,7 @@ PROPS = {
     "C07": {
         "level": "proof", "prove": True, "ground": ["idsAreIDCH", "noRefPrefix"],
         "bounded": {"search": "C07", "quick": "6s", "thorough": "60s",
-                    "what": "permutation / duplication invariance and monotonicity of the verdict, checked by execution on enumerated lists (BOUNDED cross-check of the stated meta-lemmas)"},
+                    "what": "permutation / duplication invariance, re-spelling of entries (spaces, parentheses, letter case) and monotonicity of the verdict, checked by execution on enumerated lists (BOUNDED cross-check of the stated meta-lemmas); and the ASSUMED contract of sort.Slice (a permutation by swaps inside the slice, less called with indices inside the slice) against the real package on every arrangement of up to 7 keys and on longer slices"},
         "assumptions": DEFS_BY_CODE + [
             "proved (code): stringsToNodes yields, in order, the term of every entry; every node carries listed ids / id-character names (representation invariant, established by the scanner and parser contracts); the in-place sort+compaction keeps in the full-length slice exactly the canonical strings AND exactly the terms that were there; hence (Satisfies, clause verdictOfTheSet) the verdict is sem(tree) with 'covered(t)' = 'some ENTRY of the allowed list denotes a term matching t' - an existential over the entries",
             "proved (code): Satisfies' clause verdictIsSemL: err == nil ==> result == semL(tree of the expression, allowed list), a closed spec function of the expression's tree and the list's entries (no reference to the nodes, their order or the compaction)",
